@@ -87,6 +87,7 @@ class Interp:
         self.stats = {"stmts": 0, "calls": 0}
         self.fresh = itertools.count()
         self._feas_cache = {}
+        self.auto_stub = None               # optional callable(fn, args, kwargs) -> value for repository callees without an explicit contract stub
 
     # =========================================================================================== API
     def run(self, fn, args, kwargs=None, guard=True):
@@ -153,6 +154,8 @@ class Interp:
             if _is_repo_function(fn.__func__):
                 return self.call_repo(fn.__func__, [fn.__self__] + args, kwargs, g)
         if isinstance(fn, types.FunctionType) and _is_repo_function(fn):
+            if self.auto_stub is not None and self.stats["calls"] > 1:
+                return self.auto_stub(fn, args, kwargs)
             return self.call_repo(fn, args, kwargs, g)
         if isinstance(fn, type) and _is_repo_function(fn) and not issubclass(fn, BaseException):
             import enum
